@@ -556,24 +556,20 @@ theorem layout_branchInside_gen {a : List Stmt} {t : SymTab} {la : List Stmt}
   obtain ⟨s1, hs1, p, hp, e3, e4⟩ := translateAll_mem h2 s2 hs2
   obtain ⟨s0, hs0, o, ho, e5⟩ := resolveAll_mem h1 s1 hs1
   have hk1 : s1.operand.kind = .relative := by rw [← e3, ← f1, ← e1]; exact hk
-  have hadd := translateOperand_relative hp hk1
+  obtain ⟨hadd, haddr⟩ := translateOperand_relative hp hk1
   rw [e2, f2, e4, hadd] at hb
   have ho' : s1.operand = o := by rw [e5]
-  rw [ho'] at hk1 hb
+  rw [ho'] at hk1 hb haddr
   obtain ⟨_, hres⟩ := resolveOperand_relative ho hk1
-  split at hb
-  · rename_i haddr
-    cases hv : o.value with
-    | address i m =>
-      rw [hv] at hb hres
-      simp [Value.int?] at hb
-      subst hb
-      obtain ⟨k, m', hg⟩ := resolve_address hres (hna s0 hs0)
-      obtain ⟨kv, hkv, hkv2⟩ := SymTab.get?_mem hg
-      exact Nat.le_of_lt (htab kv hkv _ _ hkv2)
-    | _ => rw [hv] at haddr; cases haddr
-  · simp [Value.int?] at hb
-    omega
+  cases hv : o.value with
+  | address i m =>
+    rw [hv] at hb hres
+    simp [Value.int?] at hb
+    subst hb
+    obtain ⟨k, m', hg⟩ := resolve_address hres (hna s0 hs0)
+    obtain ⟨kv, hkv, hkv2⟩ := SymTab.get?_mem hg
+    exact Nat.le_of_lt (htab kv hkv _ _ hkv2)
+  | _ => rw [hv] at haddr; cases haddr
 
 theorem back_prefix_gen {a b : List Stmt} {A B : Assembly} (hA : back a = .ok A)
     (hB : back (a ++ b) = .ok B) (hna : ∀ s ∈ a, s.operand.value.isAddress = false) :
